@@ -51,6 +51,8 @@ def hierarchies(tier):
         if shape == "multi" and not (overflow or noinit or factory):
             out.append({"shape": shape, "ctor": ctor, "key": key, "overflow": overflow, "noinit": noinit, "factory": factory, "shared": True})
             out.append({"shape": shape, "ctor": ctor, "key": key, "overflow": overflow, "noinit": noinit, "factory": factory, "shared": "factory"})
+        if shape in ("single", "spec_sub", "plain_sub") and ctor == "generated" and not (noinit or factory or key):
+            out.append({"shape": shape, "ctor": ctor, "key": key, "overflow": overflow, "noinit": noinit, "factory": factory, "inv_star": True})
         if not key and shape in ("single", "spec_sub", "plain_sub", "spec_sub_plain", "spec_sub_sub") and not (overflow or noinit or factory):
             # the owner declares `a` WITHOUT default (and it is not a key): defaults can then only come from subclasses
             out.append({"shape": shape, "ctor": ctor, "key": key, "overflow": overflow, "noinit": noinit, "factory": factory, "a_nodefault": True})
@@ -76,6 +78,9 @@ def classes_of(h):
             "overflow": "extra" if h["overflow"] else None, "post_init": True,
             "decl": {"a": {"ann": True, "default": base_a_default, "init": True},
                      "b": {"ann": True, "default": ("factory", 2) if fac else 2, "init": not h["noinit"]}}}
+    if h.get("inv_star"):
+        # `b` is reset whenever ANY other attribute changes - but constructing an instance is not a change of it
+        base["decl"]["b"] = {"ann": True, "default": 2, "init": True, "inv": "*"}
     cls = [base]
     sh = h["shape"]
     if sh in ("spec_sub", "spec_sub_plain", "spec_sub_sub"):
@@ -154,6 +159,8 @@ def source_of(h):
                 rhs = f"Attr(default_factory=lambda: {dv[1]}" + ("" if d["init"] else ", init=False") + ")"
             elif not d["init"]:
                 rhs = f"Attr(default={dv}, init=False)"
+            elif d.get("inv"):
+                rhs = f"Attr(default={dv}, invalidated_by={d['inv']!r})"
             else:
                 rhs = None if dv is None else str(dv)
             if d["ann"]:
@@ -343,7 +350,7 @@ def judge(h, final, kwargs, positional_key, others_first=False):
     case = {"h": h, "final": final, "kwargs": kwargs, "positional_key": positional_key, "others_first": others_first}
     sig = dict(shape=h["shape"], ctor=h["ctor"], key=h["key"], overflow=h["overflow"], noinit=h["noinit"], factory=h["factory"], final=final,
                sub_b=h.get("sub_b", "redeclare"), sub_dnc=bool(h.get("sub_dnc")), others_first=others_first,
-               shared=bool(h.get("shared")), a_nodefault=bool(h.get("a_nodefault")),
+               shared=bool(h.get("shared")), a_nodefault=bool(h.get("a_nodefault")), inv_star=bool(h.get("inv_star")),
                kw=("bad" if any(v == "bad" for v in kwargs.values()) else "unknown" if any(k not in ATTRS for k in kwargs) else "conf"),
                positional=positional_key is not None)
     out = []
